@@ -2426,7 +2426,9 @@ mutual
 
   theorem truncStep_of_fits (S : ScalarOps L) (F : FmtFacts) (lim : Limits) :
       ∀ (s : Step L), fitsStep S F lim s = true → truncStep S F lim s = s
-    | .attr _, _ => by rw [truncStep]
+    | .attr n, h => by
+      rw [fitsStep] at h
+      rw [truncStep, if_pos h]
     | .star, _ => by rw [truncStep]
     | .starstar, _ => by rw [truncStep]
     | .seg a, h => by
@@ -2757,7 +2759,14 @@ mutual
   theorem fitsStep_mono (S : ScalarOps L) (F : FmtFacts) (lim lim' : Limits) (hle : lim.le lim' = true)
       (hS : ∀ v, S.fits lim v = true → S.fits lim' v = true) :
       ∀ (s : Step L), fitsStep S F lim s = true → fitsStep S F lim' s = true
-    | .attr _, _ => by rw [fitsStep]
+    | .attr n, h => by
+      have hs := (le_fields hle).2.2.2.2.2.2.1
+      rw [fitsStep] at h ⊢
+      unfold nameFits at h ⊢
+      simp only [Bool.or_eq_true, decide_eq_true_eq] at h ⊢
+      rcases h with h | h
+      · exact Or.inl h
+      · exact Or.inr (Nat.le_trans h hs)
     | .star, _ => by rw [fitsStep]
     | .starstar, _ => by rw [fitsStep]
     | .seg a, h => by
